@@ -629,3 +629,86 @@ Proof.
     assert (L : forall k a, length (iotaN k a) = k) by (induction k; intros; simpl; auto).
     intros. rewrite !L. reflexivity.
 Qed.
+
+(* ---------- which byte strings the reader accepts ---------- *)
+Lemma take_firstn_skipn {A} n : forall l : list A, (n <= length l)%nat -> take n l = Some (firstn n l, skipn n l).
+Proof.
+  induction n as [|n IH]; intros l H; [reflexivity|]. destruct l as [|x l]; [simpl in H; lia|].
+  cbn [take firstn skipn]. rewrite IH by (simpl in H; lia). reflexivity.
+Qed.
+
+Lemma de_le32_some a : length a = 4%nat -> exists w, de_le32 a = Some w.
+Proof. destruct a as [|a [|b [|c [|d [|? ?]]]]]; try discriminate. intros _. eexists; reflexivity. Qed.
+
+Lemma de_le16_some a : length a = 2%nat -> exists w, de_le16 a = Some w.
+Proof. destruct a as [|a [|b [|? ?]]]; try discriminate. intros _. eexists; reflexivity. Qed.
+
+Lemma get32_some l : (4 <= length l)%nat -> exists w, get32 l = Some (w, skipn 4 l).
+Proof.
+  intros H. unfold get32. rewrite take_firstn_skipn by assumption. cbn [bind].
+  destruct (de_le32_some (firstn 4 l)) as [w E]; [rewrite firstn_length; lia|]. rewrite E. cbn [bind]. eauto.
+Qed.
+
+Lemma get16_some l : (2 <= length l)%nat -> exists w, get16 l = Some (w, skipn 2 l).
+Proof.
+  intros H. unfold get16. rewrite take_firstn_skipn by assumption. cbn [bind].
+  destruct (de_le16_some (firstn 2 l)) as [w E]; [rewrite firstn_length; lia|]. rewrite E. cbn [bind]. eauto.
+Qed.
+
+Lemma getvec_some l : (12 <= length l)%nat -> exists v r, getvec l = Some (v, r).
+Proof.
+  intros H. unfold getvec.
+  destruct (get32_some l) as [x E1]; [lia|]. rewrite E1. cbn [bind].
+  destruct (get32_some (skipn 4 l)) as [y E2]; [rewrite skipn_length; lia|]. rewrite E2. cbn [bind].
+  destruct (get32_some (skipn 4 (skipn 4 l))) as [z E3]; [rewrite !skipn_length; lia|]. rewrite E3. cbn [bind]. eauto.
+Qed.
+
+Lemma gettri_some l : (50 <= length l)%nat -> exists t r, gettri l = Some (t, r).
+Proof.
+  intros H. unfold gettri.
+  destruct (getvec_some l) as (n & r1 & E1); [lia|]. rewrite E1. cbn [bind]. apply getvec_length in E1.
+  destruct (getvec_some r1) as (a & r2 & E2); [lia|]. rewrite E2. cbn [bind]. apply getvec_length in E2.
+  destruct (getvec_some r2) as (b & r3 & E3); [lia|]. rewrite E3. cbn [bind]. apply getvec_length in E3.
+  destruct (getvec_some r3) as (c & r4 & E4); [lia|]. rewrite E4. cbn [bind]. apply getvec_length in E4.
+  destruct (get16_some r4) as (w & E5); [lia|]. rewrite E5. cbn [bind]. eauto.
+Qed.
+
+Lemma read_tris_rest_some fuel : forall c l, 50 * c <= N.of_nat (length l) -> (length l <= fuel)%nat ->
+  exists ts r, read_tris_rest fuel c l = Some (ts, r).
+Proof.
+  induction fuel as [|f IH]; intros c l Hc Hf;
+    (destruct (N.eq_dec c 0) as [->|Hn]; [rewrite read_tris_rest_0; eauto|]).
+  - lia.
+  - rewrite read_tris_rest_S by assumption.
+    destruct (gettri_some l) as (t & r & Et); [lia|]. rewrite Et. cbn [bind]. apply gettri_length in Et.
+    destruct (IH (c - 1) r) as (ts & r' & E); [lia|lia|]. rewrite E. cbn [bind]. eauto.
+Qed.
+
+Lemma skipn_skipn' {A} a : forall b (l : list A), skipn a (skipn b l) = skipn (b + a) l.
+Proof. intros b. induction b as [|b IH]; intros l; [reflexivity|]. destruct l; [destruct a; reflexivity|]. apply IH. Qed.
+
+(* stl.Read accepts a byte string exactly when it holds the 84-byte preamble and at least 50 bytes for each of
+   the n records its count field announces — whatever follows is ignored, anything shorter is rejected *)
+Theorem read_accepts_iff bytes : (84 <= length bytes)%nat ->
+  exists n, get32 (skipn 80 bytes) = Some (n, skipn 84 bytes) /\
+    ((exists hdr ts, read bytes = Some (hdr, ts)) <-> 84 + 50 * n <= N.of_nat (length bytes)).
+Proof.
+  intros H. destruct (get32_some (skipn 80 bytes)) as [n E]; [rewrite skipn_length; lia|].
+  rewrite skipn_skipn' in E. change (80 + 4)%nat with 84%nat in E. exists n. split; [exact E|].
+  unfold read. rewrite take_firstn_skipn by lia. cbn [bind]. rewrite E. cbn [bind].
+  rewrite read_tris_fst. split.
+  - intros (hdr & ts & Hr).
+    destruct (read_tris_rest (length (skipn 84 bytes)) n (skipn 84 bytes)) as [[ts' r']|] eqn:Er; [|discriminate].
+    apply read_tris_rest_length in Er. destruct Er as [Hn Hl]. rewrite skipn_length in Hl. lia.
+  - intros Hlen.
+    destruct (read_tris_rest_some (length (skipn 84 bytes)) n (skipn 84 bytes)) as (ts & r & Er);
+      [rewrite skipn_length; lia|lia|].
+    rewrite Er. cbn [option_map fst bind]. eauto.
+Qed.
+
+Theorem read_short_header bytes : (length bytes < 84)%nat -> read bytes = None.
+Proof.
+  intros H. unfold read. destruct (take 80 bytes) as [[hdr r]|] eqn:E; cbn [bind]; [|reflexivity].
+  apply take_length in E. destruct (get32 r) as [[n r2]|] eqn:E2; cbn [bind]; [|reflexivity].
+  apply get32_length in E2. lia.
+Qed.
